@@ -350,11 +350,8 @@ func (sps *RawSPS) Decode(data []byte) (err error) {
 			}
 		}
 	} else {
-		if sps.ProfileIdc == 183 {
-			sps.ChromaFormatIdc = 0
-		} else {
-			sps.ChromaFormatIdc = 1
-		}
+		// 7.4.2.1.1: chroma_format_idc not present => inferred 1 (4:2:0)
+		sps.ChromaFormatIdc = 1
 
 		sps.SeparateColourPlaneFlag = 0
 		sps.BitDepthLumaMinus8 = 0
